@@ -36,13 +36,21 @@ ALGOS = {
     "mis": ["serial", "pull", "nondet", "detBase", "prio", "edgetiledprio"],
 }
 APPS = ["bfs", "sssp", "cc", "mst", "tc", "kcore", "pfp", "prpush", "prpull", "mis", "bfs-dist", "sssp-dist", "cc-dist", "kcore-dist"]
+# the registered check runs two units: the shared-memory applications (cheap, many cases) and the distributed ones
+_sel = os.environ.get("C20_APPS", "")
+if _sel == "cpu":
+    APPS = [a for a in APPS if not a.endswith("-dist")]
+elif _sel == "dist":
+    APPS = [a for a in APPS if a.endswith("-dist")]
+elif _sel:
+    APPS = [a for a in APPS if a in _sel.split(",")]
 
 edge = st.tuples(st.integers(0, 399), st.integers(0, 399), st.integers(0, 1000))
 case_strategy = st.fixed_dictionaries({
     "app": st.sampled_from(APPS),
     "n": st.one_of(st.integers(1, 12), st.integers(1, 60), st.integers(1, 400)),
     "edges": st.lists(edge, max_size=600),
-    "shape": st.sampled_from(["random", "random", "hub", "two-components", "path"]),
+    "shape": st.sampled_from(["random", "random", "hub", "two-components", "path", "tree", "ring-satellites", "star-forest"]),
     "algo": st.integers(0, 9),
     "threads": st.sampled_from([1, 2, 4, 8, 16]),
     "start": st.integers(0, 399),
@@ -67,6 +75,45 @@ def build_graph(case):
     n = case["n"]
     shape = case["shape"]
     es = []
+    p = case["param"]
+    if shape == "tree" and n >= 3:
+        # random tree: node i hangs under an earlier node chosen by the generated edge list (or a
+        # PRF of it); the generated weights decide the order in which the edges enter the file
+        # (adjacency order matters to sampling-based algorithms)
+        src = case["edges"] or [(0, 0, 0)]
+        for i in range(1, n):
+            s0, d0, w0 = src[i % len(src)]
+            es.append((i, (s0 * 7919 + d0 * 31 + i * (w0 | 1)) % i, w0))
+        es.sort(key=lambda e: (e[2] * 2654435761 + e[0] * 40503) % 1000003)
+        return n, es
+    if shape == "ring-satellites" and n >= 8:
+        # one large cycle plus small trees attached to it by a single edge each
+        ring = max(4, n * (2 + p % 3) // 5)
+        for i in range(ring):
+            es.append((i, (i + 1) % ring, 1 + i % 7))
+        src = case["edges"] or [(0, 0, 0)]
+        for i in range(ring, n):
+            s0, d0, w0 = src[i % len(src)]
+            # a new satellite root hangs on the ring, the others under a recent satellite node
+            parent = (s0 + d0) % ring if (w0 + i) % 4 == 0 else ring + (s0 + i) % (i - ring) if i > ring else (s0 % ring)
+            es.append((i, parent, 1 + w0 % 9))
+        es.sort(key=lambda e: (e[2] * 2654435761 + e[0] * 40503 + p) % 1000003)
+        return n, es
+    if shape == "star-forest":
+        # a few hubs with many leaves each (leaf -> hub and, for half of the hubs, hub -> leaf): all leaves
+        # push into their hub at the same time.  Much larger than the generated n: sizes come from the case.
+        hubs = 1 + p % 8
+        leaves = [40, 150, 600, 1500][(case["n"] + p) % 4]
+        n = hubs * (leaves + 1)
+        for h in range(hubs):
+            hub = h * (leaves + 1)
+            for j in range(1, leaves + 1):
+                es.append((hub + j, hub, 1 + (j * 7 + h) % 50))
+                if h % 2:
+                    es.append((hub, hub + j, 1 + (j * 3 + h) % 50))
+        for h in range(1, hubs):  # hubs form a chain so that the graph is connected
+            es.append(((h - 1) * (leaves + 1), h * (leaves + 1), 3))
+        return n, es
     for (s, d, w) in case["edges"]:
         s, d = s % n, d % n
         if shape == "hub":
@@ -134,7 +181,7 @@ def run_app(cmd, work, threads, hosts=None, timeout=180):
     env["OMPI_MCA_mpi_yield_when_idle"] = "1"
     if hosts:
         env["GALOIS_VERIF_TOPO"] = str(max(1, threads))
-        cmd = ["mpirun", "--allow-run-as-root", "--oversubscribe", "-np", str(hosts)] + cmd
+        cmd = ["mpirun", "--allow-run-as-root", "--oversubscribe", "--bind-to", "none", "-np", str(hosts)] + cmd
     rc, out, err = run_cmd(cmd, timeout=timeout, env=env, cwd=work)
     txt = "\n".join(l for l in (out + "\n" + err).split("\n") if l and not l.startswith(("DEBUG", "STAT", "PARAM")))
     if rc != 0:
@@ -168,7 +215,10 @@ def check(case, work):
     app = case["app"]
     n, es = build_graph(case)
     threads = case["threads"]
-    labels = {"app": app, "threads": threads, "shape": case["shape"], "n": "<=12" if n <= 12 else "<=60" if n <= 60 else "<=400"}
+    if case["shape"] == "star-forest" and app not in ("bfs", "sssp", "cc", "prpush", "prpull"):
+        case = dict(case, shape="hub")  # the large shape only where the reference is cheap
+        n, es = build_graph(case)
+    labels = {"app": app, "threads": threads, "shape": case["shape"], "n": "<=12" if n <= 12 else "<=60" if n <= 60 else "<=400" if n <= 400 else ">400"}
     has_multi = len(set((s, d) for (s, d, _) in es)) < len(es) or any(s == d for (s, d, _) in es)
     gr = os.path.join(work, "g.gr")
     tgr = os.path.join(work, "g.tgr")
@@ -259,6 +309,10 @@ def check(case, work):
         multi_comp = comps >= 2
         if app == "cc":
             cmd = [BIN[app], gr, "-symmetricGraph"] + t + ["-algo=" + algo]
+            if "Afforest" in algo:
+                vns = [2, 0, 1, 3][case["param"] % 4]  # neighbour sampling rounds (documented option, default 2)
+                cmd.append("-vns=%d" % vns)
+                labels["vns"] = vns
             txt = run_app(cmd, work, threads)
             got = grab(txt, r"Total components: (\d+)", "Total components")
             if got != comps:
@@ -413,12 +467,16 @@ def check(case, work):
             adj[s].append((d, None))
             tadj[d].append((s, None))
         tol = 1e-6
-        if app == "prpush":
-            write_gr(gr, n, adj, "void")
-            txt = run_app([BIN[app], gr] + t + ["-algo=" + algo, "-tolerance=%g" % tol], work, threads)
-        else:
-            write_gr(gr, n, tadj, "void")
-            txt = run_app([BIN[app], gr, "-transposedGraph"] + t + ["-algo=" + algo, "-tolerance=%g" % tol], work, threads)
+        # asynchronous variants are schedule dependent: sample a few schedules per case
+        reps = 3 if threads >= 2 and algo in ("Async", "Residual") else 1
+        txts = []
+        for _ in range(reps):
+            if app == "prpush":
+                write_gr(gr, n, adj, "void")
+                txts.append(run_app([BIN[app], gr] + t + ["-algo=" + algo, "-tolerance=%g" % tol], work, threads))
+            else:
+                write_gr(gr, n, tadj, "void")
+                txts.append(run_app([BIN[app], gr, "-transposedGraph"] + t + ["-algo=" + algo, "-tolerance=%g" % tol], work, threads))
         # reference: rank = 0.15 + 0.85 * sum_{u->v} rank(u)/outdeg(u)   (definition read from the sources)
         out = [len(a) for a in adj]
         r = [0.15] * n
@@ -437,15 +495,16 @@ def check(case, work):
             # the topological pull variant uses the normalised definition (base score (1-alpha)/n, read from the
             # source); the equations are linear, so its fixpoint is the unnormalised one divided by n
             r = [x / n for x in r]
-        got = {}
-        for m in re.finditer(r"^\d+: ([0-9.eE+-]+) (\d+)$", txt, re.M):
-            got[int(m.group(2))] = float(m.group(1))
-        if not got and n:
-            raise Violation("unparsable-output", "no rank lines in the output: %s" % txt[-200:])
-        # accumulated error bound: tolerance is per residual; allow a generous factor
-        for v, x in got.items():
-            if abs(x - r[v]) > max(1e-3, 200 * tol) * max(1.0, r[v]):
-                raise Violation("wrong-rank", "node %d: app rank %.6f, power iteration %.6f (n=%d, %s)" % (v, x, r[v], n, algo))
+        for txt in txts:
+            got = {}
+            for m in re.finditer(r"^\d+: ([0-9.eE+-]+) (\d+)$", txt, re.M):
+                got[int(m.group(2))] = float(m.group(1))
+            if not got and n:
+                raise Violation("unparsable-output", "no rank lines in the output: %s" % txt[-200:])
+            # accumulated error bound: tolerance is per residual; allow a generous factor
+            for v, x in got.items():
+                if abs(x - r[v]) > max(1e-3, 200 * tol) * max(1.0, r[v]):
+                    raise Violation("wrong-rank", "node %d: app rank %.6f, power iteration %.6f (n=%d, %s, %d threads)" % (v, x, r[v], n, algo, threads))
         return labels, threads >= 2 and len(seen) >= 3
     raise Inconclusive()
 
